@@ -136,8 +136,8 @@ func (t Time) IsZero() bool {
 func (t Time) JS() native.JS {
 	y := t.t.Year()
 	ms := int64(t.t.Nanosecond()) / int64(time.Millisecond)
-	name, offset := t.t.Zone()
-	if name == "UTC" {
+	_, offset := t.t.Zone()
+	if offset == 0 {
 		format := `new Date("%0.4d-%0.2d-%0.2dT%0.2d:%0.2d:%0.2d.%0.3dZ")`
 		if y < 0 || y > 9999 {
 			format = `new Date("%+0.6d-%0.2d-%0.2dT%0.2d:%0.2d:%0.2d.%0.3dZ")`
